@@ -29,9 +29,13 @@ def main():
     prop, k = sys.argv[1].upper(), sys.argv[2]
     keep = "--keep" in sys.argv
     notests = "--no-tests" in sys.argv
-    wave = 7 if "--wave7" in sys.argv else 6 if "--wave6" in sys.argv else (5 if "--wave5" in sys.argv else (3 if "--wave3" in sys.argv else (2 if "--wave2" in sys.argv else 1)))
-    wt = "/tmp/seed/%s-%s" % ({1: "wt", 2: "w2", 3: "w3", 5: "w5", 6: "w6", 7: "w7"}[wave], prop)
-    if wave in (6, 7):
+    wave = 8 if "--wave8" in sys.argv else 7 if "--wave7" in sys.argv else 6 if "--wave6" in sys.argv else (5 if "--wave5" in sys.argv else (3 if "--wave3" in sys.argv else (2 if "--wave2" in sys.argv else 1)))
+    wt = "/tmp/seed/%s-%s" % ({1: "wt", 2: "w2", 3: "w3", 5: "w5", 6: "w6", 7: "w7", 8: "w8"}[wave], prop)
+    if wave == 8:
+        # eighth round (all properties again): out8-<P>/fault<k>; ids <P>-15, <P>-16
+        out = "/tmp/seed/out8-%s/fault%s" % (prop, k)
+        sid = "%s-%d" % (prop, int(k) + 14)
+    elif wave in (6, 7):
         # sixth / seventh round (disjoint sets of properties): out6-<P>/fault<k>, out7-<P>/fault<k>; ids continue after round 5
         out = "/tmp/seed/out%d-%s/fault%s" % (wave, prop, k)
         sid = "%s-%d" % (prop, int(k) + 12)
